@@ -662,7 +662,8 @@ func execReuse[T any](ct *cat, rows []T, split []int) (res [numReuse]pathResult)
 
 // withReuse: the case being checked is also fed from reused caller memory
 // (set by runCase; always on for replays)
-var withReuse = os.Getenv("C03_NOREUSE") == "" // (the variable is a debugging aid)
+var reuseEnabled = os.Getenv("C03_NOREUSE") == "" // (the variable is a debugging aid)
+var withReuse = reuseEnabled
 
 var reuseCases int
 
